@@ -85,7 +85,8 @@ def gen_case(rng):
     first = None
     if n > 1 and rng.random() < 0.3:
         first = rng.randrange(1, n)
-    return dict(root=0, first=first, nodes=nodes)
+    # which of the other public loaders (as_instance=True) the graph also goes through
+    return dict(root=0, first=first, nodes=nodes, loader=rng.choice(["state", "load", "taskdir"]))
 
 
 def values_in(v):
@@ -190,10 +191,12 @@ def gobjs(objs):
 def g_case(c):
     a, b = c["raw"]["instance"], c["raw"]["params"]
     heap = glist(gnode(nd) for nd in c["nodes"])
-    ans = "(Build_answer %s %s %s %s %s %s)" % (
+    l = c["raw"]["loader"]
+    ans = "(Build_answer %s %s %s %s %s %s %s %s %s)" % (
         gobjs(a["objects"]), glist(glist(gcall(e) for e in lg) for lg in a["logs"]),
         glist(gnat(max(x, 0)) for x in a["returned"]),
-        gobjs(b["objects"]), glist(gcall(e) for e in b["log"]), glist(gnat(max(x, 0)) for x in b["order"]))
+        gobjs(b["objects"]), glist(gcall(e) for e in b["log"]), glist(gnat(max(x, 0)) for x in b["order"]),
+        gobjs(l["objects"]), glist(gcall(e) for e in l["log"]), "true" if l["with_init"] else "false")
     first = "None" if c.get("first") is None else f"(Some {gnat(c['first'])})"
     return f"(Case {heap} {gnat(c['root'])} {first} once {ans})"
 
@@ -249,10 +252,67 @@ def check_ran(tag, nodes, log, out, data):
             return
 
 
+def init_findings(tag, log, objects):
+    """the parameter-less __init__ of the runtime objects: exactly one per object, before the __post_init__ of
+    that object, and before the __post_init__ of any object one of whose attributes names it"""
+    out = []
+    pos_init, pos_post = {}, {}
+    for i, e in enumerate(log):
+        if e["obj"] < 0:
+            continue
+        if e["k"] == "init":
+            pos_init.setdefault(e["obj"], []).append(i)
+        elif e["k"] == "post":
+            pos_post.setdefault(e["obj"], i)
+    names = {}
+    for o in objects:
+        refs = []
+
+        def walk(v):
+            if v["t"] == "obj":
+                refs.append(v["n"])
+            elif v["t"] == "list":
+                for x in v["v"]:
+                    walk(x)
+            elif v["t"] == "dict":
+                for _, x in v["v"]:
+                    walk(x)
+        for _, v in o["attrs"]:
+            walk(v)
+        names[o["node"]] = refs
+    for n, i in pos_post.items():
+        if len(pos_init.get(n, [])) != 1 or pos_init[n][0] > i:
+            out.append(dict(key=f"C13:{tag}:init-count", what="a runtime object was not initialised (__init__) exactly once "
+                            "before its __post_init__", node=n, inits=pos_init.get(n, []), post=i))
+            break
+    for n, i in pos_post.items():
+        late = [m for m in names.get(n, []) if m in pos_post and pos_init.get(m) and pos_init[m][-1] > i]
+        if late:
+            out.append(dict(key=f"C13:{tag}:init-after-use", what="__post_init__ of an object ran before the __init__ of an "
+                            "object it refers to (whatever it did to that object is wiped by the later __init__)",
+                            node=n, refers_to=late))
+            break
+    return out
+
+
+def split_inits(raw):
+    """takes the __init__ events out of the logs (the model has none) and keeps what the oracle says about them"""
+    found = []
+    a, b, l = raw["instance"], raw["params"], raw["loader"]
+    for lg in a["logs"]:
+        found += init_findings("instance", lg, a["objects"])
+    found += init_findings("params", b["log"], b["objects"])
+    found += init_findings("loader", l["log"], l["objects"])
+    a["logs"] = [[e for e in lg if e["k"] != "init"] for lg in a["logs"]]
+    b["log"] = [e for e in b["log"] if e["k"] != "init"]
+    l["log"] = [e for e in l["log"] if e["k"] != "init"]
+    raw["init_findings"] = found
+
+
 def oracle(case):
     out = []
     nodes = case["nodes"]
-    small = dict(root=case["root"], first=case.get("first"), nodes=nodes)
+    small = dict(root=case["root"], first=case.get("first"), nodes=nodes, loader=case.get("loader"))
     a, b = case["raw"]["instance"], case["raw"]["params"]
     nodes_a = [dict(nd, init=[]) for nd in nodes]        # instance() without submit: no init task attached
     # ---- instance(): one call after the other on one store
@@ -311,6 +371,31 @@ def oracle(case):
         out.append(dict(key="C13:params:sequence",
                         what="not: every pre-task once, then the init tasks in order, then the body",
                         data=dict(data, executed=seq, pretasks=sorted(pre), init=init)))
+    # ---- the other loaders that return runtime objects: from_state_dict / load / from_task_dir (as_instance=True)
+    l = case["raw"]["loader"]
+    data = dict(case=small, loader=l["how"])
+    nodes_l = nodes if l["with_init"] else nodes_a
+    expected = reachable(nodes_l, case["root"], True)
+    check_objects("loader", nodes_l, expected, l["objects"], out, data)
+    check_posts("loader", nodes_l, expected, l["log"], out, data)
+    check_ran("loader", nodes_l, l["log"], out, data)
+    if l["returned"] != case["root"]:
+        out.append(dict(key="C13:loader:returned", what="the loader did not return the object of the configuration", data=data))
+    pre_l = set()
+    for n in expected:
+        pre_l.update(nodes_l[n]["pre"])
+    ran = [e["obj"] for e in l["log"] if e["k"] in ("exec", "body")]
+    if len(set(ran)) != len(ran) or "body" in [e["k"] for e in l["log"]]:
+        out.append(dict(key="C13:loader:sequence", what="a lightweight task ran twice, or the task body ran, while loading",
+                        data=dict(data, executed=ran)))
+    elif pre_l and not ran:
+        out.append(dict(key="C13:loaders:pre-tasks-not-run",
+                        what="from_state_dict / load / from_task_dir with as_instance=True return runtime objects whose "
+                             "pre-tasks were never executed (from_task_dir: nor the init tasks of the task)",
+                        data=dict(data, pretasks=sorted(pre_l), init=nodes_l[case["root"]]["init"])))
+    for f in case["raw"].get("init_findings", []):
+        out.append(dict(key=f["key"], what=f["what"], data=dict(case=small, detail={k: v for k, v in f.items()
+                                                                                       if k not in ("key", "what")})))
     return out
 
 
@@ -319,7 +404,7 @@ def reductions(case):
     res = []
 
     def emit(mut):
-        c2 = copy.deepcopy(dict(root=case["root"], first=case.get("first"), nodes=case["nodes"]))
+        c2 = copy.deepcopy(dict(root=case["root"], first=case.get("first"), nodes=case["nodes"], loader=case.get("loader")))
         mut(c2)
         for nd in c2["nodes"]:
             nd.pop("order", None)
@@ -342,7 +427,7 @@ def reductions(case):
 
 def shrink(c, case, key):
     cur = case
-    for _ in range(40):
+    for _ in range(12):
         cands = reductions(cur)
         if not cands:
             break
@@ -351,6 +436,7 @@ def shrink(c, case, key):
         for cand, a in zip(cands, r["answers"]):
             if "error" in a:
                 continue
+            split_inits(a)
             cand["raw"] = a
             if any(v["key"] == key for v in oracle(cand)):
                 found = cand
@@ -414,6 +500,7 @@ def run(c: Check):
     c.count("tree:loader-runs-" + ("each-lightweight-task-once" if once else "every-init-task-entry"))
     c.extra["probe"] = probe
     header = HEADER + "Definition once := %s.\n" % ("true" if once else "false")
+    known_open = {k["key"] for k in c.known() if k.get("property") == "C13" and k.get("status") == "open"}
     good = []
     for case in cases:
         a = case["raw"]
@@ -423,7 +510,9 @@ def run(c: Check):
             c.obligations.append(dict(name=f"driver:case{len(good)}", kind="corr", ok=False,
                                       detail=a["error"] + " " + json.dumps(dict(nodes=case["nodes"]))[:300]))
             continue
+        split_inits(a)
         good.append(case)
+        c.count("loader:" + a["loader"]["how"])
         nodes = case["nodes"]
         reach = reachable(nodes, case["root"], True)
         indeg = {}
@@ -457,7 +546,7 @@ def run(c: Check):
             c.nontrivial.add(json.dumps(nodes, sort_keys=True))
         for v in oracle(case):
             if not any(x["key"] == v["key"] for x in c.violations):
-                if not c.replay:
+                if not c.replay and v["key"] not in known_open:
                     small = shrink(c, case, v["key"])
                     v = next(x for x in oracle(small) if x["key"] == v["key"])
                 c.violation(v["key"], v["what"], v["data"])
